@@ -141,6 +141,8 @@ def param_sets(prog):
     sets["utils.edge_case_handling:MetricZeroTPEdgeCaseHandling"] = [
         {"default_result": R("ONE"), "no_instances_result": R("NAN"), "empty_prediction_result": R("ZERO"), "empty_reference_result": R("INF"), "normal": None},
         {"default_result": None, "no_instances_result": R("NONE"), "empty_prediction_result": R("ONE"), "empty_reference_result": R("ZERO"), "normal": R("NAN")},
+        # an explicit NONE next to a default that is not NONE ("not given" and "given as NONE" differ)
+        {"default_result": R("ONE"), "no_instances_result": R("NONE"), "empty_prediction_result": None, "empty_reference_result": R("NAN"), "normal": R("ZERO")},
     ]
     # [7, 15] / [16, 8]: labels whose hashes collide in a small set - the iteration order of a set of
     # them depends on the insertion order, so anything that orders settings by iterating a set shows
